@@ -41,24 +41,28 @@ theorem i32toa_buffer_pinned : Generated.C20.i32toaBufLen = 11 := by decide
 
 theorem digit16_pinned : Generated.C20.digit16 = "0123456789abcdef" ∧ Generated.C20.digit16.toList = digit16 := by decide
 
-/-- `uint16base16`: "0x0000" with digit k taken from `(n & mask) >> shift`, as in the model. -/
+/-- `uint16base16`: template "0x0000", the digit at position 2..5 shows the 4-bit group 3..0 of `n` (most
+significant first), whichever of the equivalent mask/shift spellings the source uses. -/
 theorem uint16_digits_pinned :
     Generated.C20.uint16Template = "0x0000" ∧
-    Generated.C20.uint16Digits = [(2, 0xf000, 12), (3, 0x0f00, 8), (4, 0x00f0, 4), (5, 0x000f, 0)] := by decide
+    Generated.C20.uint16Nibbles = [(2, 3), (3, 2), (4, 1), (5, 0)] := by decide
 
 /-- `uuid.ToString`: position table, dash positions, hex table and buffer size are the model's. -/
 theorem uuid_tables_pinned :
     Generated.C20.uuidIdx = uuidIdx ∧ Generated.C20.uuidDashes = uuidDashes ∧
     Generated.C20.halfbyte2hexchar.map Char.ofNat = halfbyte2hexchar ∧ Generated.C20.uuidBufLen = 36 := by decide
 
-/-- D25: every calendar accessor (Year … Nanosecond) in the five wall-clock renderers is applied to
-`e.End.UTC()`; no other field touches the calendar; `End` is otherwise used through `Sub` and `UnixNano`
-only (location independent). -/
+/-- D25: every location-dependent `time.Time` method (Year … Nanosecond, Date, Clock, Format, …) reached from
+the five wall-clock renderers — through helpers as well — is applied to a value that is `End.UTC()`; each of
+the five reaches at least one; no other field touches the calendar; `End` itself is otherwise only used
+through location-independent methods. -/
 theorem time_fields_use_utc :
     Generated.C20.calendarAccessorsNotOnUTC = [] ∧
-    Generated.C20.timeFieldAccessorCalls =
-      [("$time_common", 6), ("$time_rfc3339", 6), ("$time_rfc3339_ms", 7), ("$time_rfc3339_ns", 7), ("$time_rfc3339_us", 7)] ∧
-    Generated.C20.methodsCalledOnEnd = ["Sub", "UTC", "UnixNano"] := by
+    Generated.C20.timeFieldAccessorCalls.map (·.1) =
+      ["$time_common", "$time_rfc3339", "$time_rfc3339_ms", "$time_rfc3339_ns", "$time_rfc3339_us"] ∧
+    Generated.C20.timeFieldAccessorCalls.all (fun p => decide (1 ≤ p.2)) = true ∧
+    Generated.C20.methodsCalledOnEnd.all
+      (["Sub", "UTC", "UnixNano", "Unix", "UnixMilli", "UnixMicro", "Equal", "Before", "After", "IsZero"].contains ·) = true := by
   decide
 
 /-- The field functions never assign through the event (logging cannot alter request or response). -/
@@ -68,35 +72,36 @@ theorem renderers_read_only : Generated.C20.rendererWritesToEvent = [] := by dec
 theorem write_shape_pinned :
     Generated.C20.writeReturnsEarlyOnEmptyBuffer = true ∧ Generated.C20.writeNewlineCalls = 1 := by decide
 
-/-- The only call site builds the event with a non-nil `Response` literal, `UpstreamAddr = targetURL.Host`
-(which has no port for a route to `http://backend/`), and the request it served. -/
+/-- The only call site builds the event with a non-nil `Response` literal, `UpstreamAddr` = the `Host` of the
+very URL passed as `UpstreamURL` (no port for a route to `http://backend/`), and the request parameter of
+the handler. -/
 theorem call_site_pinned :
-    Generated.C20.eventSite.lookup "Response" = some "&http.Response{…}" ∧
-    Generated.C20.eventSite.lookup "UpstreamAddr" = some "targetURL.Host" ∧
-    Generated.C20.eventSite.lookup "Request" = some "r" ∧
-    Generated.C20.eventSite.lookup "End" = some "end" ∧
-    Generated.C20.eventSite.lookup "Start" = some "start" := by decide
+    Generated.C20.eventSiteResponseIsLiteral = true ∧
+    Generated.C20.eventSiteUpstreamAddrIsHostOfUpstreamURL = true ∧
+    Generated.C20.eventSiteRequestIsHandlerParam = true ∧
+    ["End", "Request", "Response", "Start", "UpstreamAddr"].all (Generated.C20.eventSiteKeys.contains ·) = true := by decide
 
-/-- which micro-step of the `Log` model a call in `Log` stands for -/
+/-- which micro-step of the `Log` model an event of `Log` stands for (events are named by method / callee,
+`Pool.*` = on a package-level `sync.Pool`; helpers are followed) -/
 def opOfCall : String → Option Model.C20Log.Op
-  | "pool.Get" => some .get
-  | "l.p.write" => some .render
-  | "l.mu.Lock" => some .lock
-  | "l.w.Write" => some .write
-  | "l.mu.Unlock" => some .unlock
-  | "pool.Put" => some .put
+  | "Pool.Get" => some .get
+  | "render" => some .render
+  | "Lock" => some .lock
+  | "Write" => some .write
+  | "Unlock" => some .unlock
+  | "Pool.Put" => some .put
   | _ => none
 
 /-- `Log` performs get, render, lock, write, unlock, put in exactly the order of the model's `goodProg`
-(in particular `pool.Put` comes after `l.w.Write`), the bytes handed to the writer are taken from the
-buffer inside the `Write` call itself (`b.Bytes()` under the mutex, no alias taken earlier), nothing is
-deferred or spawned; the logger's own state is the pattern, the mutex and the writer, the buffers live in
-a package-level `sync.Pool`. -/
+(in particular `Pool.Put` comes after `Write`), the buffer is reset, the bytes handed to the writer are taken
+from the buffer inside the `Write` call itself (no alias taken earlier), nothing is deferred or spawned; the
+logger's own state is three fields, among them one mutex and one writer; the buffers live in one
+package-level `sync.Pool`. -/
 theorem log_call_order_pinned :
     Generated.C20.logCalls.filterMap opOfCall = Model.C20Log.goodProg ∧
-    Generated.C20.logCalls = ["pool.Get", "b.Reset", "l.p.write", "l.mu.Lock", "l.w.Write", "b.Bytes", "l.mu.Unlock", "pool.Put"] ∧
-    Generated.C20.logWriteArg = "b.Bytes()" ∧ Generated.C20.logUsesDeferOrGo = false ∧
-    Generated.C20.loggerStructFields = ["p pattern", "mu sync.Mutex", "w io.Writer"] ∧
-    Generated.C20.poolType = "sync.Pool" := by decide
+    Generated.C20.logCalls.contains "Reset" = true ∧
+    Generated.C20.logWriteArg = "Bytes() of a buffer, evaluated in the call" ∧ Generated.C20.logUsesDeferOrGo = false ∧
+    Generated.C20.loggerStdFieldTypes = ["io.Writer", "sync.Mutex"] ∧ Generated.C20.loggerFieldCount = 3 ∧
+    Generated.C20.syncPoolVars = 1 := by decide
 
 end Fabio.Props.C20Facts
